@@ -1307,7 +1307,7 @@ pub fn child(args: &Args) -> ! {
     std::process::exit(0);
 }
 
-fn thread_cpu(pid: u32) -> BTreeMap<String, (String, u64)> {
+pub(crate) fn thread_cpu(pid: u32) -> BTreeMap<String, (String, u64)> {
     let mut out = BTreeMap::new();
     if let Ok(rd) = std::fs::read_dir(format!("/proc/{pid}/task")) {
         for e in rd.flatten() {
